@@ -124,6 +124,9 @@ func MultiPolygon(box orb.Bound, mp orb.MultiPolygon, o orb.Orientation) orb.Mul
 	// outer rings
 	outerRings := make([]orb.Ring, 0, len(mp))
 	for _, p := range mp {
+		if len(p) == 0 {
+			continue
+		}
 		outerRings = append(outerRings, p[0])
 	}
 
@@ -140,6 +143,9 @@ func MultiPolygon(box orb.Bound, mp orb.MultiPolygon, o orb.Orientation) orb.Mul
 	// inner rings
 	var innerRings []orb.Ring
 	for _, p := range mp {
+		if len(p) == 0 {
+			continue
+		}
 		for _, r := range p[1:] {
 			innerRings = append(innerRings, r)
 		}
